@@ -104,3 +104,43 @@
             core::mem::forget(r);
         }
     }
+
+    /// C13: the remaining fixed-size parameter value types.  A list written with an EntityId, a ProtocolVersion, a bool, a
+    /// BuiltinEndpointSet and an i32 (arbitrary values, fixed distinct pids) is read back with exactly those values: sub-word
+    /// values are padded to 4 bytes on the wire and the padding does not leak into the value.
+    /// @props C13
+    /// @kind proof
+    /// @tier quick
+    /// @timeout 1500
+    /// @fn ParameterListSerializer::write_cdr_parameter, ParameterList::get_non_optional_parameter, <EntityId as CdrDeserialize>::cdr_deserialize, <ProtocolVersion as CdrDeserialize>::cdr_deserialize, <bool as CdrDeserialize>::cdr_deserialize
+    #[cfg_attr(kani, kani::proof)]
+    fn c13_fixed_size_parameter_values_round_trip() {
+        let eid = EntityId::new(kani::any(), kani::any());
+        let pv = ProtocolVersion::new(kani::any(), kani::any());
+        let b: bool = kani::any();
+        let set = BuiltinEndpointSet(kani::any());
+        let x: i32 = kani::any();
+        let mut data: Vec<u8> = Vec::new();
+        {
+            let mut s = ParameterListSerializer::new(&mut data);
+            s.write_header();
+            s.write_cdr_parameter(0x50, eid);
+            s.write_cdr_parameter(0x15, pv);
+            s.write_cdr_parameter(0x43, b);
+            s.write_cdr_parameter(0x58, set);
+            s.write_cdr_parameter(0x7001, x);
+            s.write_sentinel();
+        }
+        assert!(data.len() == 4 + 5 * 8 + 4, "C13: every sub-word value is padded to 4 bytes");
+        match ParameterList::new(&data) {
+            Ok(pl) => {
+                assert!(matches!(pl.get_non_optional_parameter::<EntityId>(0x50), Ok(v) if v == eid), "C13: EntityId");
+                assert!(matches!(pl.get_non_optional_parameter::<ProtocolVersion>(0x15), Ok(v) if v == pv), "C13: ProtocolVersion");
+                assert!(matches!(pl.get_non_optional_parameter::<bool>(0x43), Ok(v) if v == b), "C13: bool");
+                assert!(matches!(pl.get_non_optional_parameter::<BuiltinEndpointSet>(0x58), Ok(v) if v == set), "C13: BuiltinEndpointSet");
+                assert!(matches!(pl.get_non_optional_parameter::<i32>(0x7001), Ok(v) if v == x), "C13: i32 under a vendor-specific pid");
+            }
+            Err(_) => assert!(false, "C13: a written list is readable"),
+        }
+        core::mem::forget(data);
+    }
